@@ -1306,6 +1306,7 @@ def symbolic(*modules, proxy=None, extra=None):
     unmodified functions run on symbolic values; restore afterwards."""
     proxy = proxy or NP()
     sp = SciPy()
+    sp.linalg = proxy.linalg          # a check that replaces the linear-algebra proxy replaces it for scipy.linalg too
     saved = []
     try:
         for mod in modules:
